@@ -87,18 +87,14 @@ theorem error_atomic (l : Bits) (op : Op) (e : Err)
     (h : (stepSpec l op).ret = .error e) : (stepSpec l op).bits = l := by
   sorry
 
-/-- The same for the code path (outside `set` / `invert` over iterables): no exception leaves a half-done mutation. -/
+/-- The same for the code path (there `set` over a `range` is atomic too): no exception leaves a half-done mutation. -/
 theorem error_atomic_alg (l : Bits) (op : Op) (e : Err)
-    (hop : ∀ v ps, op ≠ .set v (.many ps)) (hop' : ∀ p, op ≠ .invert p)
+    (hop : ∀ v ps, op ≠ .set v (.many ps)) (hop' : ∀ ps, op ≠ .invert (.many ps))
+    (hr' : ∀ a b c, op ≠ .invert (.range a b c))
     (h : (stepAlg l op).ret = .error e) : (stepAlg l op).bits = l := by
   sorry
 
 /-- Operations that are not length-changing by definition keep the length, whatever their arguments. -/
-def Op.keepsLength : Op → Bool
-  | .setItem _ (.int _) | .setSlice _ _ _ (.int _) | .reverse _ _ | .rol _ _ _ | .ror _ _ _
-  | .set _ _ | .invert _ | .byteswap _ _ _ _ | .ishl _ | .ishr _ | .iand _ | .ior _ | .ixor _ => true
-  | _ => false
-
 theorem keepsLength_length (l : Bits) (op : Op) (h : op.keepsLength = true) :
     (stepSpec l op).bits.length = l.length := by
   sorry
@@ -121,12 +117,6 @@ theorem run_eq_partial (ops : List Op) (l : Bits) (h : goodRun ops l = true) : r
   sorry
 
 /-- Histories made of operations that have no deviation region at all need no side condition. -/
-def Op.neverDeviant : Op → Bool
-  | .append _ | .prepend _ | .delItem _ | .delSlice _ _ _ | .setItem _ _ | .setSlice _ _ _ (.bits _)
-  | .reverse _ _ | .invert _ | .set _ (.one _) | .set _ (.many _) | .ishl _ | .ishr _ | .imul _
-  | .iand _ | .ior _ | .ixor _ | .clear => true
-  | _ => false
-
 theorem run_eq_of_neverDeviant (ops : List Op) (l : Bits) (h : ∀ op ∈ ops, op.neverDeviant = true) :
     runAlg ops l = runSpec ops l := by
   sorry
@@ -138,8 +128,8 @@ example : goodRun [.insert (.lit [false, true]) 2, .rol 3 (some 1) none, .replac
 example : runAlg [.insert (.lit [false, true]) 2, .rol 3 (some 1) none, .delSlice none none (some 2), .ixor .self]
     [true, true, false, true, false, false] =
   [⟨.ok .none, [true, true, false, true, false, true, false, false]⟩,
-   ⟨.ok .none, [true, true, false, true, false, false, true, false]⟩,
-   ⟨.ok .none, [true, true, false, false]⟩,
+   ⟨.ok .none, [true, false, true, false, false, true, false, true]⟩,
+   ⟨.ok .none, [false, false, true, true]⟩,
    ⟨.ok .none, [false, false, false, false]⟩] := by decide
 
 end BM.C03
